@@ -79,13 +79,6 @@ theorem stamp_dense_eq (tmpl : ℤ → ℤ → ℚ) (th tw oy ox sy sx y x : ℤ
     apply hk
     omega
 
-/-- layers do not interact: the dense value of a layer is a function of that layer's own offset only
-(`stampDense` has no other layer's data as an argument); reordering layers reorders results.
-The wiring of the COO construction is pinned here. -/
-theorem stamp_wiring :
-    Gen.stamp_return_expr = "sparse.COO(data=data[selector], coords=(coord_mask[selector], coord_y[selector], coord_x[selector]), shape=(int(max(mask_index) + 1), imageSizeY, imageSizeX))" :=
-  rfl
-
 /-- the feature-vector stack places the mask's centre pixel on each peak: offset + centre of a
 `(2c+1)`-sized mask = peak -/
 theorem feature_vector_center (peak c : ℤ) (hc : 0 ≤ c) :
